@@ -19,6 +19,7 @@ RULE = (
     "children= argument on forests over N <= 2/3 nodes. Generated: Hypothesis histories (<= 7 nodes, <= 30 calls) over 14 class choices, read-free histories, and "
     "histories built inside a helper that hands back one or two nodes only (the rest of the tree is kept alive by its links alone; parent chain and whole tree are then read from the kept node). "
     "Non-trivial = a successful call that changes at least one link, or a refusal. Enumerated distinct by construction; histories hashed."
+    ' Also: legal calls on classes whose repr() raises; every parent assignment on forests N <= 4 with a hook that evicts a sibling (closed-form expectation); children from generators with side effects on the same node.'
 )
 ASSUMPTIONS = [
     "oracle = closed-form post-state and refusal predicate written from the statement (vf/mut.py spec), compared on the whole universe",
